@@ -157,6 +157,17 @@ func NewLinearFeeFunction(maxFeeRate chainfee.SatPerKWeight,
 	// Calculate how much fee rate should be increased per block.
 	end := l.endingFeeRate
 
+	// A caller-supplied starting fee rate is not capped yet. Make sure we
+	// never start above the ending fee rate, as the fee rate would
+	// otherwise exceed the max fee rate and then decrease.
+	if start > end {
+		log.Debugf("Starting fee rate %v is greater than the ending "+
+			"fee rate %v, using the ending fee rate instead", start,
+			end)
+
+		start = end
+	}
+
 	// The starting and ending fee rates are in sat/kw, so we need to
 	// convert them to msat/kw by multiplying by 1000.
 	delta := btcutil.Amount(end - start).MulF64(1000 / float64(l.width))
